@@ -233,6 +233,7 @@ func buildCases(ctx *core.Ctx, shapes []Shape) []*Case {
 	cases = append(cases, SharedNamespaceCases()...)
 	cases = append(cases, OneErrorCases()...)
 	cases = append(cases, FailingOperationCases()...)
+	cases = append(cases, FileNameCases()...)
 	return cases
 }
 
@@ -411,6 +412,16 @@ func exploreCase(ctx *core.Ctx, c *Case, st *exploreState, repsID, repsOther int
 		ctx.Violation(core.Sig{Family: "compile", Feature: "callers-globals-map-modified"},
 			fmt.Sprintf("case %s: %s", c.ID, why), &Disagreement{Case: c, Component: "globals", Kind: "input-modified", A: why})
 	}
+	// Generator.WriteFile(name) must return the script of the file that carries the name
+	for _, p := range perms {
+		key := OrderKey(p)
+		if r := refs[key]; r["writefile:bad"] != "" && !cs.reported["writefile"] && unstable["js:es5"] == nil {
+			cs.reported["writefile"] = true
+			ctx.Violation(core.Sig{Family: "genjs", Feature: "writefile-returns-another-files-script"},
+				fmt.Sprintf("case %s order %s: %s", c.ID, key, r["writefile:bad"]),
+				&Disagreement{Case: c, Component: "js:writefile", Kind: "wrong-file", OrderA: key, OrderB: key, A: r["writefile:a"], B: r["writefile:b"]})
+		}
+	}
 	// repetitions on the same compiled registry (second pass inside Observe)
 	for _, p := range perms {
 		key := OrderKey(p)
@@ -445,8 +456,8 @@ func exploreCase(ctx *core.Ctx, c *Case, st *exploreState, repsID, repsOther int
 				continue
 			}
 			a, b := refs[id][comp], refs[key][comp]
-			if comp == "err" && c.NErr > 1 {
-				continue // membership is checked below
+			if comp == "err" && (c.NErr > 1 || c.ErrNamesFilesInOrder) {
+				continue // membership is checked below / the text names the files in insertion order
 			}
 			if a != b {
 				cs.reported[comp] = true
